@@ -8,6 +8,7 @@ package main
 //   w<i>   inside the i-th successful socket.WriteTo (the sender goroutine is held in the conn wrapper)
 //   g<i>   inside the i-th call of ServerConfig.QueryResendDelay (the sender goroutine, after send i returned)
 //   ret    after Server.Query returned
+// (actions: reply, cancel, close = Server.Close, block = Server.SetIPBlockList covering the destination, nop)
 // and the injected resend-delay function returns 1 ms as long as no reply / cancel action was performed
 // and one hour afterwards, so no timer fires that the script did not let fire.  The few scripts that are
 // racy in the code itself (cancel before the first send) have a set of allowed outcomes in the model.
@@ -166,6 +167,9 @@ type qRun struct {
 	okWrites   int   // successful writes of the query so far
 	gates      int64 // calls of the resend-delay function
 	afterClose int
+	blocked    bool
+	blockedAt  int
+	afterBlock int
 }
 
 var qProbePort int32 = 20000
@@ -191,7 +195,9 @@ func (r *qRun) runPoint(point string, i int) {
 				continue
 			}
 			r.mu.Lock()
-			r.term = true
+			if !r.blocked && !r.closed {
+				r.term = true // a reply the server cannot take (closed, source blocked) ends nothing
+			}
 			r.mu.Unlock()
 			var id krpc.ID
 			id[0], id[19] = 0x77, byte(r.dest.Port)
@@ -210,6 +216,13 @@ func (r *qRun) runPoint(point string, i int) {
 		case "close":
 			r.closed = true
 			r.s.Close()
+		case "block":
+			// Server.SetIPBlockList while the query is under way: the destination is blocked from now on
+			r.mu.Lock()
+			r.blockedAt = r.okWrites
+			r.blocked = true
+			r.mu.Unlock()
+			r.s.SetIPBlockList(blockOf(r.dest.IP))
 		case "nop":
 			time.Sleep(30 * time.Millisecond)
 		case "probe":
@@ -283,6 +296,9 @@ func (r *qRun) run() qOutcome {
 		r.okWrites++
 		n := r.okWrites
 		closed := r.closed
+		if r.blocked {
+			r.afterBlock++
+		}
 		r.mu.Unlock()
 		if closed {
 			r.afterClose++
@@ -379,6 +395,12 @@ func (r *qRun) run() qOutcome {
 	}
 	if r.afterClose > 0 || ((sc.closed0) && out.writes > 0) {
 		oracle("C14", "sent-after-close", "writes-after-close=%d writes=%d %s", r.afterClose, out.writes, r.detail())
+	}
+	if r.afterBlock > 0 {
+		oracle("C19", "datagram-to-blocked-address:resend", "%d datagram(s) to %v after SetIPBlockList covered it (blocked after write %d) %s", r.afterBlock, r.dest, r.blockedAt, r.detail())
+	}
+	if r.blocked && out.res.Err == nil && r.blockedAt < effTries && !strings.Contains(sc.lhs(0), "reply") {
+		oracle("C19", "query-to-blocked-address-succeeded", "%s", r.detail())
 	}
 	if sc.closed0 && out.res.Err == nil {
 		oracle("C14", "query-on-closed-server-succeeded", "%s", r.detail())
@@ -501,6 +523,9 @@ func queryScenarios(tier string) []qScn {
 			add(qScn{tries: tries, tag: "cancel-after-send", script: []qDir{d("g", i, "cancel")}})
 			add(qScn{tries: tries, tag: "close-in-send", script: []qDir{d("w", i, "close")}})
 			add(qScn{tries: tries, tag: "close-after-send", script: []qDir{d("g", i, "close")}})
+			add(qScn{tries: tries, tag: "blocklist-installed-in-send", script: []qDir{d("w", i, "block")}})
+			add(qScn{tries: tries, tag: "blocklist-installed-after-send", script: []qDir{d("g", i, "block")}})
+			add(qScn{tries: tries, tag: "blocklist-then-reply", script: []qDir{d("g", i, "block"), d("g", i, "reply")}})
 			add(qScn{tries: tries, tag: "write-fails", fail: i})
 			add(qScn{tries: tries, tag: "write-fails-late-reply", fail: i, script: []qDir{d("ret", 0, "reply")}})
 			add(qScn{tries: tries, tag: "reply-then-cancel", script: []qDir{d("g", i, "reply"), d("g", i, "cancel")}})
@@ -577,6 +602,10 @@ func queryEngine(seed uint64, tier string, args []string) {
 				rated = fmt.Sprint(o.rated)
 			}
 			outs[fmt.Sprintf("%d/%s/%s", o.writes, rated, o.class)] = true
+			if o.noReturn {
+				r.s.Close()
+				break // one hang is a finding; do not wait for nineteen more
+			}
 			if o.pending > maxPending {
 				maxPending = o.pending
 			}
